@@ -909,6 +909,15 @@ static void run_one(int id)
 		dispatch_semaphore_wait(x->new_sem, DISPATCH_TIME_FOREVER);
 		dispatch_release(x->ds2);
 	}
+	/* The one invocation that was already committed when a foreign cancel (or cancel_and_wait on a source whose
+	 * registration was already deleted by a hang-up) returned may still start: it runs under the source's drain lock,
+	 * taken before the cancel.  Wait until the source is at rest (nobody holds or is about to take that lock) before
+	 * calling the execution finished; anything starting after that is illegal.  (False alarm xvi: on a global target
+	 * without a cancel handler the fixed 0.5 ms below was shorter than a perturbed worker's way to the callout.) */
+	for (int rest = 0, spins = 0; rest < 4 && spins < 20000; spins++) {
+		if (source_at_rest(x)) rest++; else rest = 0;
+		usleep(250);
+	}
 	/* let a late (illegal) invocation show itself */
 	usleep(200 + (unsigned)(vrt_rand() % 300));
 	if (x->serial) { dispatch_sync_f(x->tq, NULL, nop_fn); dispatch_sync_f(x->tq, NULL, nop_fn); }
